@@ -319,3 +319,8 @@ for _p in ("C01", "C09", "C10", "C11", "C12", "C14", "C17", "C20"):
 # the handler half of C12 is compared with Model/Handler.v too
 SPECS["C12"]["coq_files"] = SPECS["C12"]["coq_files"] + ["Model/Handler.v", "Run/HandlerRun.v"]
 SPECS["C12"]["runner_vo"] = ["Run/ServiceRun.v", "Run/HandlerRun.v"]
+
+# service-level lookups (svcq) also carry monitors for C11 (a late off-distance answer, after the lookup has ended,
+# still gets its sender banned) and C01 (the record the service supplies for a who-are-you query is that node's own)
+SPECS["C11"]["harness"].append({"component": "svcq", "args": [], "quick": 200, "thorough": 3000, "correspondence": False})
+SPECS["C01"]["harness"].append({"component": "svcq", "args": [], "quick": 200, "thorough": 3000, "correspondence": False})
